@@ -16,10 +16,10 @@ TRUSTED = [
     "parser / scanner (cue/parser, cue/scanner) are NOT modelled: their totality, position invariants and agreement with cue/literal are direct exploration on the implementation (evidence key `exploration`), not theorems",
 ]
 
-KNOWN_AUTOHASH = ("literal.Form.WithOptionalHashes().Quote(s) is not unquotable when s starts with two quote "
+KNOWN_AUTOHASH = ("C09-autohash-leading-quotes: literal.Form.WithOptionalHashes().Quote(s) is not unquotable when s starts with two quote "
                   "characters not followed by '#' (witness String.WithOptionalHashes().Quote(`\"\"x`) == `#\"\"\"x\"#`: "
                   "ParseQuotes reads a multi-line opening; Coq: C09_unquote_quote_autohash_bad)")
-KNOWN_U32 = ("literal.Unquote accumulates \\U escapes in an int32: \"\\UFFFFFFFC\" panics (unreachable), "
+KNOWN_U32 = ("C09-unquote-U-int32: literal.Unquote accumulates \\U escapes in an int32: \"\\UFFFFFFFC\" panics (unreachable), "
              "\"abc\\UFFFFFFFFdef\" is accepted as \"abc\" (Coq: C09_unquote_no_panic_refuted, spec layer rejects)")
 
 
